@@ -126,6 +126,47 @@ def global_object_events():
     return sorted(holders), events
 
 
+def hidden_state_sites():
+    """other places where state could survive a run: mutable default arguments, cache decorators, module-level containers mutated inside
+    functions, `global` statements, class attributes stored through the class name  ->  [(kind, file, function, name)]"""
+    out = []
+    MUT = ("append", "extend", "update", "add", "pop", "clear", "remove", "insert", "setdefault", "popitem", "discard", "sort", "reverse")
+    CONT = ("dict", "list", "set", "defaultdict", "OrderedDict", "Counter", "deque")
+    for f in sorted((common.REPO / "propka").glob("*.py")):
+        tree = ast.parse(f.read_text())
+        modnames, classes = set(), set()
+        for n in tree.body:
+            if isinstance(n, (ast.Assign, ast.AnnAssign)):
+                tgts = n.targets if isinstance(n, ast.Assign) else [n.target]
+                v = n.value
+                if v is not None and (isinstance(v, (ast.Dict, ast.List, ast.Set, ast.ListComp, ast.DictComp, ast.SetComp))
+                                      or (isinstance(v, ast.Call) and isinstance(v.func, ast.Name) and v.func.id in CONT)):
+                    modnames.update(t.id for t in tgts if isinstance(t, ast.Name))
+            if isinstance(n, ast.ClassDef):
+                classes.add(n.name)
+        for fn in ast.walk(tree):
+            if not isinstance(fn, (ast.FunctionDef, ast.AsyncFunctionDef)):
+                continue
+            for d in fn.args.defaults + [x for x in fn.args.kw_defaults if x is not None]:
+                if isinstance(d, (ast.Dict, ast.List, ast.Set)) or (isinstance(d, ast.Call) and isinstance(d.func, ast.Name) and d.func.id in CONT):
+                    out.append(("mutable-default", f.name, fn.name, ""))
+            for dec in fn.decorator_list:
+                nm = dec.func if isinstance(dec, ast.Call) else dec
+                nm = nm.attr if isinstance(nm, ast.Attribute) else getattr(nm, "id", "")
+                if nm in ("lru_cache", "cache", "cached_property"):
+                    out.append(("cache-decorator", f.name, fn.name, nm))
+            for x in ast.walk(fn):
+                if isinstance(x, (ast.Global, ast.Nonlocal)):
+                    out.append(("global-statement", f.name, fn.name, ",".join(x.names)))
+                if isinstance(x, ast.Subscript) and isinstance(x.ctx, (ast.Store, ast.Del)) and isinstance(x.value, ast.Name) and x.value.id in modnames:
+                    out.append(("container-mutation", f.name, fn.name, x.value.id))
+                if isinstance(x, ast.Call) and isinstance(x.func, ast.Attribute) and x.func.attr in MUT and isinstance(x.func.value, ast.Name) and x.func.value.id in modnames:
+                    out.append(("container-mutation", f.name, fn.name, x.func.value.id))
+                if isinstance(x, ast.Attribute) and isinstance(x.ctx, ast.Store) and isinstance(x.value, ast.Name) and x.value.id in classes:
+                    out.append(("class-attribute-store", f.name, fn.name, x.value.id + "." + x.attr))
+    return sorted(set(out))
+
+
 def exception_dispatch():
     """energy.check_exceptions: the if/elif chain as rows (type1, type2, callee, swapped?)"""
     tree = ast.parse((common.REPO / "propka" / "energy.py").read_text())
@@ -245,6 +286,9 @@ def regenerate():
     inv += ["(* energy.check_exceptions: (type1, type2, callee, arguments swapped) for every accepted pair of group types *)",
             "Definition exception_dispatch : list (string * string * string * bool) :=\n  "
             + clist([f"({cstr(a)}, {cstr(b)}, {cstr(c)}, {'true' if sw else 'false'})" for a, b, c, sw in exception_dispatch()]) + ".", ""]
+    inv += ["(* further places where state could survive a run: (kind, file, function, name) *)",
+            "Definition hidden_state_sites : list (string * string * string * string) :=\n  "
+            + clist([f"({cstr(a)}, {cstr(b)}, {cstr(c)}, {cstr(d)})" for a, b, c, d in hidden_state_sites()]) + ".", ""]
     holders, events = global_object_events()
     inv += ["(* process-global objects (module-level / class-level instances of propka classes) and the self-attribute accesses of their methods *)",
             "Definition global_objects : list (string * string * string) :=\n  " + clist([f"({cstr(a)}, {cstr(b)}, {cstr(c)})" for a, b, c in holders]) + ".",
